@@ -38,6 +38,11 @@ CONSTANTS N,            \* number of inputs
                         \*   contract of the data store); "suffix": of every identifier that ends with x -
                         \*   the design-level counterexample of MC_ComposedApp_retire.cfg
           Reversed,     \* set of BOOLEAN: TRUE = the inputs are handed over in reversed order
+          Reps,         \* how the collection of inputs is REPRESENTED when it is handed to apply_to /
+                        \*   as_completed: "list", "tuple", "liststr", "members", "datastore", or a ONE-SHOT
+                        \*   iterable that can be walked only once: "generator", "map", "iter", "reversed"
+                        \*   (which also reverses the order), "glob".  The submitted inputs are the same
+                        \*   for every representation, so every law below holds for each of them
           FnStep,       \* the step (0 = none) that is a FUNCTION STYLE app constructed with mutable
                         \*   arguments (a list, a dict) which its body changes in place while it works
           Isolated,     \* TRUE = every call of that step gets the arguments as constructed (what
@@ -50,9 +55,9 @@ CONSTANTS N,            \* number of inputs
                         \*   a dict without info, bytes): a NotCompleted made from such a value
                         \*   cannot name the source, everything else must hold all the same
 
-VARIABLES plan, named, naming, rev, w, wtyped, submitted, pending, running, finished, result, order, cons, written,
+VARIABLES plan, named, naming, rev, rep, w, wtyped, submitted, pending, running, finished, result, order, cons, written,
           arg, argseen
-vars == <<plan, named, naming, rev, w, wtyped, submitted, pending, running, finished, result, order, cons, written, arg, argseen>>
+vars == <<plan, named, naming, rev, rep, w, wtyped, submitted, pending, running, finished, result, order, cons, written, arg, argseen>>
 
 Inputs   == 1..N
 Steps    == 1..S
@@ -142,6 +147,7 @@ Shows(i) == LET v == Run(plan, i) IN
 Init == /\ plan \in Plans
         /\ rev \in Reversed
         /\ naming \in Namings
+        /\ rep \in Reps
         /\ arg = Arg0
         /\ argseen = [i \in Inputs |-> NoArg]
         /\ named \in [Inputs -> Named]
@@ -164,7 +170,7 @@ LogFinal(act) ==
     THEN Emit([act |-> act, n |-> N, plan |-> plan, named |-> named, w |-> w, wtyped |-> wtyped,
                order |-> order', cons |-> cons', written |-> written',
                vals |-> [i \in Inputs |-> Run(plan, i)], rev |-> rev,
-               naming |-> naming, names |-> [i \in Inputs |-> Name(naming, i)],
+               rep |-> rep, naming |-> naming, names |-> [i \in Inputs |-> Name(naming, i)],
                argseen |-> [i \in Inputs |-> IF Shows(i) THEN argseen'[i] ELSE NoArg], ret |-> "ok"])
     ELSE TRUE
 
@@ -178,18 +184,21 @@ Stored(i, r) ==
              THEN None
              ELSE written[j]]
 
+(* the order the inputs are submitted in *)
+Backwards == rev # (rep = "reversed")
+
 SubmitT ==
     /\ ~submitted
     /\ submitted' = TRUE
-    /\ pending' = [i \in Inputs |-> IF rev THEN N + 1 - i ELSE i]
-    /\ UNCHANGED <<plan, named, naming, rev, w, wtyped, running, finished, result, order, cons, written, arg, argseen>>
+    /\ pending' = [i \in Inputs |-> IF Backwards THEN N + 1 - i ELSE i]      \* all of them, once each
+    /\ UNCHANGED <<plan, named, naming, rev, rep, w, wtyped, running, finished, result, order, cons, written, arg, argseen>>
 
 StartT(t) ==
     /\ w > 0 /\ pending # <<>> /\ t = Head(pending)
     /\ Cardinality(running) < w
     /\ pending' = Tail(pending)
     /\ running' = running \cup {t}
-    /\ UNCHANGED <<plan, named, naming, rev, w, wtyped, submitted, finished, result, order, cons, written, arg, argseen>>
+    /\ UNCHANGED <<plan, named, naming, rev, rep, w, wtyped, submitted, finished, result, order, cons, written, arg, argseen>>
 
 (* the worker returns the proxy: source kept, object replaced by the result *)
 CompleteT(t) ==
@@ -199,7 +208,7 @@ CompleteT(t) ==
     /\ result' = [result EXCEPT ![t] = [src |-> t, obj |-> Run(plan, t)]]
     /\ order' = Append(order, t)
     /\ argseen' = [argseen EXCEPT ![t] = IF Invoked(t) THEN Arg0 ELSE NoArg]   \* the task's own instance
-    /\ UNCHANGED <<plan, named, naming, rev, w, wtyped, submitted, pending, cons, written, arg>>
+    /\ UNCHANGED <<plan, named, naming, rev, rep, w, wtyped, submitted, pending, cons, written, arg>>
 
 (* the master writes result t under the identifier of the proxy's source *)
 ConsumeT(t) ==
@@ -207,7 +216,7 @@ ConsumeT(t) ==
     /\ finished' = finished \ {t}
     /\ written' = Stored(result[t].src, Rec(result[t].obj, wtyped))
     /\ cons' = Append(cons, result[t].src)
-    /\ UNCHANGED <<plan, named, naming, rev, w, wtyped, submitted, pending, running, result, order, arg, argseen>>
+    /\ UNCHANGED <<plan, named, naming, rev, rep, w, wtyped, submitted, pending, running, result, order, arg, argseen>>
 
 SerialT(t) ==
     /\ w = 0 /\ pending # <<>> /\ t = Head(pending)
@@ -218,7 +227,7 @@ SerialT(t) ==
     /\ cons' = Append(cons, t)
     /\ argseen' = [argseen EXCEPT ![t] = IF Invoked(t) THEN arg ELSE NoArg]     \* the master's instance
     /\ arg' = IF Invoked(t) /\ ~Isolated THEN Mutate(arg) ELSE arg
-    /\ UNCHANGED <<plan, named, naming, rev, w, wtyped, submitted, running, finished>>
+    /\ UNCHANGED <<plan, named, naming, rev, rep, w, wtyped, submitted, running, finished>>
 
 Submit      == SubmitT
 Start(t)    == StartT(t)
@@ -283,7 +292,7 @@ PassThrough ==
 WriteOnce == [][\A i \in Inputs : written[i] # None => written'[i] = written[i]]_vars
 
 (* dispatch is FIFO: tasks complete only if every earlier input has been started *)
-Pos(i) == IF rev THEN N + 1 - i ELSE i
+Pos(i) == IF Backwards THEN N + 1 - i ELSE i
 Fifo == \A i \in Inputs : (i \in running \/ i \in finished \/ Count(cons, i) = 1) =>
             \A j \in Inputs : Pos(j) < Pos(i) => Count(pending, j) = 0
 
